@@ -354,6 +354,9 @@ func execSchema(h *vh.H, op string) string {
 				continue
 			}
 			d := declaredFlatFull(s, i+root.firstNumber())
+			// the proto field name is not part of the schema (the property speaks of names, order and
+			// field numbers): shown for the correspondence, not judged
+			d.set("pname", parseFlat(mem[i+1]).get("pname"))
 			if d.String() != mem[i+1] {
 				r := parseFlat(mem[i+1])
 				k, dv, rv := firstDiff(d, r)
@@ -450,6 +453,11 @@ func reflectAll(file protoreflect.FileDescriptor, specs []*Spec) (lines []string
 			continue
 		}
 		f := reflectedFlat(p)
+		if len(p.ProtoField) == 1 {
+			if fd := md.Fields().ByNumber(protoreflect.FieldNumber(p.ProtoField[0])); fd != nil {
+				f.set("pname", hexS(string(fd.Name())))
+			}
+		}
 		// enum root schema reached through the field
 		var fs j5schema.FieldSchema = rprops[i].Schema
 		if af, ok := fs.(*j5schema.ArrayField); ok {
@@ -557,6 +565,16 @@ func diffSignature(s *Spec, k, dv, rv string) string {
 	if s.Map && k == "lr" && rv == "~" {
 		// one class whatever the value type: the list rules are written on the entry's value field
 		return "schema-diff:map:value-list-rules:dropped"
+	}
+	if k == "name" {
+		// one class per cardinality, whatever the type: the property's name itself
+		cont := "single"
+		if s.Arr {
+			cont = "array"
+		} else if s.Map {
+			cont = "map"
+		}
+		return "schema-diff:" + cont + ":name:changed"
 	}
 	sig := "schema-diff:" + kindTag(s) + ":" + k + ":" + class
 	switch {
